@@ -108,8 +108,8 @@ public:
   std::vector<std::string> Properties() const override { return { "C11", "C02", "C16", "C10", "C04" }; }
   uint64_t DefaultRuns(const std::string& f, bool thorough) const override { return thorough ? 250000 : (f == "C02" ? 20000 : 12000); }
   unsigned WatchdogSecs() const override { return 4; }
-  Cfg GenCfg(Rng& r, const std::string& f, bool) override {
-    Cfg c; c["steps"] = r.Range(8, 40); c["max_cst"] = r.Range(5, 12);
+  Cfg GenCfg(Rng& r, const std::string& f, bool thorough) override {
+    Cfg c; c["steps"] = thorough ? r.Range(8, 70) : r.Range(8, 40); c["max_cst"] = r.Range(5, 12);
     c["uid_policy"] = r.Range(0, 4); c["uid_range"] = r.Range(8, 24);
     c["expr_depth"] = r.Range(1, 2) + (r.Pct(25) ? 1 : 0);
     c["p_mutant"] = r.Pct(50) ? 0 : r.Range(3, 20);
